@@ -3,12 +3,14 @@ package c11
 import (
 	"context"
 	"fmt"
+	"io"
 	"sort"
 	"strconv"
 	"strings"
 	"time"
 
 	"github.com/buildbarn/bb-storage/pkg/blobstore"
+	"github.com/buildbarn/bb-storage/pkg/blobstore/buffer"
 	"github.com/buildbarn/bb-storage/pkg/blobstore/mirrored"
 	"github.com/buildbarn/bb-storage/pkg/blobstore/replication"
 	"github.com/buildbarn/bb-storage/pkg/clock"
@@ -38,6 +40,10 @@ func exactKind(kind string) bool { return kind == "local" || kind == "noop" || k
 // that staleness is the subject of C17, so mode (b) uses a cache that forgets.
 var existenceCacheDuration = time.Minute
 
+// replicaKeyFormat is the digest key format of the sinks: the recording replicas
+// of mode (a) tell instance names apart, the flat local stores of mode (b) do not.
+var replicaKeyFormat = digest.KeyWithInstance
+
 func mkReplicator(kind string, src, snk blobstore.BlobAccess) replication.BlobReplicator {
 	base := replication.NewLocalBlobReplicator(src, snk)
 	switch kind {
@@ -46,12 +52,12 @@ func mkReplicator(kind string, src, snk blobstore.BlobAccess) replication.BlobRe
 	case "metrics":
 		return replication.NewMetricsBlobReplicator(base, clock.SystemClock, "verif_c11")
 	case "dedup":
-		return replication.NewDeduplicatingBlobReplicator(base, snk, digest.KeyWithoutInstance)
+		return replication.NewDeduplicatingBlobReplicator(base, snk, replicaKeyFormat)
 	case "climit":
 		return replication.NewConcurrencyLimitingBlobReplicator(base, snk, semaphore.NewWeighted(1))
 	case "queued":
 		return replication.NewQueuedBlobReplicator(src, base,
-			digest.NewExistenceCache(clock.SystemClock, digest.KeyWithoutInstance, 16, existenceCacheDuration, eviction.NewLRUSet[string]()))
+			digest.NewExistenceCache(clock.SystemClock, replicaKeyFormat, 16, existenceCacheDuration, eviction.NewLRUSet[string]()))
 	}
 	return base
 }
@@ -63,10 +69,55 @@ type sutA struct {
 	A, B   *recBackend
 	ba11   blobstore.BlobAccess
 	rounds int // round-consuming calls made so far (the oracle's own count)
+
+	consume string
 }
 
-func newSutA(u *universe, ab, ba string, late bool) *sutA {
-	s := &sutA{u: u, ab: ab, ba: ba, A: newRecBackend("A", u, late), B: newRecBackend("B", u, late)}
+// consume reads a buffer to the end the way a client would: in one piece, chunk
+// by chunk (the ByteStream server), or through an io.Reader whose Close reports
+// the final status.
+func consume(b buffer.Buffer, how string) ([]byte, error) {
+	switch how {
+	case "chunks":
+		r := b.ToChunkReader(0, 7)
+		defer r.Close()
+		var data []byte
+		for {
+			chunk, err := r.Read()
+			if err == io.EOF {
+				return data, nil
+			}
+			if err != nil {
+				return nil, err
+			}
+			data = append(data, chunk...)
+		}
+	case "reader":
+		r := b.ToReader()
+		data, err := io.ReadAll(r)
+		if cerr := r.Close(); err == nil {
+			err = cerr
+		}
+		if err != nil {
+			return nil, err
+		}
+		return data, nil
+	}
+	return b.ToByteSlice(1 << 20)
+}
+
+// modeA are the harness-only settings of a mode (a) case.
+type modeA struct {
+	late    bool   // Get errors surface on read
+	stream  bool   // genuine blobs are served as validating streams
+	putLate bool   // failing Puts fail at commit time instead of up front
+	consume string // how the client consumes a read: slice | chunks | reader
+}
+
+func newSutA(u *universe, ab, ba string, m modeA) *sutA {
+	sh := &streams{}
+	s := &sutA{u: u, ab: ab, ba: ba, consume: m.consume,
+		A: newRecBackend("A", u, m.late, m.stream, m.putLate, sh), B: newRecBackend("B", u, m.late, m.stream, m.putLate, sh)}
 	s.ba11 = mirrored.NewMirroredBlobAccess(view{s.A, "direct"}, view{s.B, "direct"},
 		mkReplicator(ab, view{s.A, "repl"}, view{s.B, "repl"}),
 		mkReplicator(ba, view{s.B, "repl"}, view{s.A, "repl"}))
@@ -151,9 +202,9 @@ func (s *sutA) run(w []string) (res opResult) {
 		var data []byte
 		var err error
 		if w[0] == "get" {
-			data, err = s.ba11.Get(ctx, s.u.digests[k]).ToByteSlice(1 << 20)
+			data, err = consume(s.ba11.Get(ctx, s.u.digests[k]), s.consume)
 		} else {
-			data, err = s.ba11.GetFromComposite(ctx, s.u.digests[k], s.u.digests[(k+1)%maxKeys], childSlicer{}).ToByteSlice(1 << 20)
+			data, err = consume(s.ba11.GetFromComposite(ctx, s.u.digests[k], s.u.digests[(k+1)%maxKeys], childSlicer{}), s.consume)
 		}
 		if err != nil {
 			fail(err)
@@ -165,7 +216,7 @@ func (s *sutA) run(w []string) (res opResult) {
 			}
 		}
 	case "put":
-		if err := s.ba11.Put(ctx, s.u.digests[atoi(w[1])], bufferOf(valBytes(atoi(w[2])))); err != nil {
+		if err := s.ba11.Put(ctx, s.u.digests[atoi(w[1])], bufferOf(s.u.valBytes(atoi(w[1]), atoi(w[2])))); err != nil {
 			fail(err)
 		} else {
 			res.reply = "ok"
